@@ -326,3 +326,161 @@ Example E2E_nonvacuous_duplicate_pad_bank :
   is_err (try_from_banks_model ex_fcal' ex_gain Checked 4294967295
             (e2e_ex_pwb_bank :: e2e_ex_banks ++ [e2e_ex_pwb_bank]) (fun l => l)) = true.
 Proof. vm_compute. repeat split; reflexivity. Qed.
+
+
+(* =============================================================================================== non-vacuity, pad path *)
+From AG Require Import Event.E2EExample.
+(* The example above (E2E_nonvacuous_duplicate_pad_bank) uses a 4-byte chunk payload that is no PWB packet: already ONE
+   copy of it is rejected, so it shows only that the hypotheses of C10_e2e_reject_duplicate_pad_bank are satisfiable.
+   The statements below are about a genuine PWB bank (Event/E2EExample.v): bank "PC00" whose 288 data bytes are
+   Chunk.chunk_encode (C03 specification encoder, both CRC-32C computed) of one end-of-message chunk (device of board
+   "00", chip 1, id 0) carrying Pwb.pwb_encode (C05 specification encoder) of a packet with the MAC of board "00", chip
+   B, pad channel 5, 102 samples: 100 at the pad's baseline 1725, then 1735, 1750.
+   They are statements about the SAME definitions the C10_e2e_* theorems quantify over - try_from_banks_model (at the
+   exact symbolic sample type e2x_F = ex_F, e2x_fcal = ex_fcal', e2x_gain = ex_gain), decode_banks_m, reasm_e2e,
+   Names.parse_main, Chunk.chunk_decode pwb_devices, Maps.pad_position, pad_cal_e2e, env_e2e_m, pad_claims, gkeys,
+   group - and the Examples after them instantiate the theorems' hypotheses on these values and apply the theorems.
+   All are closed by vm_compute on closed terms (the whole of Event/E2EExample.v compiles in under 3 s); the binary64
+   instance of the model (Event/E2E64.v) on the same banks is the last Example of Event/E2EExample.v (not pinned:
+   primitive floats show up in `Print Assumptions`). *)
+
+(* the bank is well formed: name, chunk (decodes to exactly the chunk it was encoded from, in both overflow modes),
+   decoded view, reassembly of the chunk alone into the packet view with the 102 raw samples, pad position and
+   calibration (baseline, gain 1 x 2^0, delay) of the simulation run *)
+Theorem C10_e2e_nonvacuous_pad_bank_well_formed :
+  Names.parse_main (fst e2x_pad_bank) = Ok (Names.KPwb 0) /\
+  lenN (snd e2x_pad_bank) = 288 /\
+  Chunk.chunk_decode pwb_devices Checked (snd e2x_pad_bank) = Ok e2x_chunk /\
+  Chunk.chunk_decode pwb_devices Wrapping (snd e2x_pad_bank) = Ok e2x_chunk /\
+  decode_banks_m Checked [e2x_pad_bank] =
+    [BPad 0 (DOk {| c_board := 0; c_chip := 1; c_uid := uid_of_bytes (snd e2x_pad_bank) |})] /\
+  reasm_e2e Checked [{| c_board := 0; c_chip := 1; c_uid := uid_of_bytes (snd e2x_pad_bank) |}] =
+    DOk {| p_board := 0; p_chip := 1; p_sent := [(Pad 5, e2x_wave)] |} /\
+  Maps.pad_position e2x_run 0 1 5 = Ok (25, 112) /\
+  pad_cal_e2e e2x_gain e2x_run 25 112 = DOk (1725%Z, (1, (1, 0))%Z, 100).
+Proof. exact e2x_pad_bank_well_formed. Qed.
+Print Assumptions C10_e2e_nonvacuous_pad_bank_well_formed.
+
+(* (a) ONE copy of the bank (and the TRG bank every event needs) is ACCEPTED by the end-to-end model, in both overflow
+   modes and both orders; exactly one slot is occupied: pad (column 25, row 112) = [(1735 - 1725) x 1; (1750 - 1725) x 1],
+   the samples after the delay of 100 *)
+Theorem C10_e2e_nonvacuous_pad_bank_accepted :
+  try_from_banks_model e2x_fcal e2x_gain Checked e2x_run e2x_single (fun l => l) = Ok e2x_pad_event /\
+  try_from_banks_model e2x_fcal e2x_gain Wrapping e2x_run (rev e2x_single) (@rev _) = Ok e2x_pad_event /\
+  pad_at e2x_pad_event 25 112 = Some [(10, (1, 0)); (25, (1, 0))]%Z.
+Proof. exact e2x_pad_bank_accepted. Qed.
+Print Assumptions C10_e2e_nonvacuous_pad_bank_accepted.
+
+(* (b) the SAME event with the SAME bank a second time is REJECTED, with the error of PwbPacket::try_from: the only
+   chunk group, (board 0, chip 1), holds chunk id 0 twice and does not reassemble; wherever the second copy stands, in
+   both modes, under both orders, also for the data-run bank.  (a) + (b) = one copy accepted, two copies rejected *)
+Theorem C10_e2e_nonvacuous_pad_bank_twice_rejected :
+  e2x_twice = [] ++ e2x_pad_bank :: [e2x_trg_bank] ++ e2x_pad_bank :: [] /\
+  try_from_banks_model e2x_fcal e2x_gain Checked e2x_run e2x_twice (fun l => l) = Err E_pwb /\
+  try_from_banks_model e2x_fcal e2x_gain Wrapping e2x_run e2x_twice (@rev _) = Err E_pwb /\
+  try_from_banks_model e2x_fcal e2x_gain Checked e2x_run (e2x_pad_bank :: e2x_single) (fun l => l) = Err E_pwb /\
+  try_from_banks_model e2x_fcal e2x_gain Checked e2x_run (e2x_single ++ [e2x_pad_bank]) (fun l => l) = Err E_pwb /\
+  gkeys (decode_banks_m Checked e2x_twice) = [(0, 1)] /\
+  reasm_e2e Checked (group (0, 1) (decode_banks_m Checked e2x_twice)) = DErr /\
+  try_from_banks_model e2x_fcal e2x_gain Checked e2x_run_data [e2x_pad_bank_data; e2x_trg_bank; e2x_pad_bank_data]
+    (fun l => l) = Err E_pwb.
+Proof. exact e2x_pad_bank_twice_rejected. Qed.
+Print Assumptions C10_e2e_nonvacuous_pad_bank_twice_rejected.
+
+(* (c) an anode-wire bank ("C092", the ADC packet of e2e_ex_adc), the pad bank, the TRG bank and an ignored bank
+   together are accepted: wire slot 0 and pad slot (25, 112) are the occupied slots; with the pad bank once more the
+   event is rejected *)
+Theorem C10_e2e_nonvacuous_wire_and_pad_accepted :
+  try_from_banks_model e2x_fcal e2x_gain Checked e2x_run e2x_wire_pad (fun l => l) = Ok e2x_wire_pad_event /\
+  try_from_banks_model e2x_fcal e2x_gain Wrapping e2x_run (rev e2x_wire_pad) (@rev _) = Ok e2x_wire_pad_event /\
+  try_from_banks_model e2x_fcal e2x_gain Checked e2x_run (e2x_wire_pad ++ [e2x_pad_bank]) (fun l => l) = Err E_pwb.
+Proof. exact e2x_wire_and_pad_accepted. Qed.
+Print Assumptions C10_e2e_nonvacuous_wire_and_pad_accepted.
+
+(* further accepted / rejected pad events (one theorem: each `Print Assumptions` walks the whole development):
+   - a data run (11084: calibration tables of that run, delay 115, 117 samples = odd count with its padding word,
+     baseline 1738, gain 5084909536333083 x 2^-52);
+   - the packet cut into two chunks = two DIFFERENT banks of the same name "PC00", in either order: accepted - two pad
+     banks of one name are the normal case, only a repeated bank is refused;
+   - clause "a pad claimed twice" of C10_e2e_rejections: the packet (MAC of board "00") a second time inside a chunk of
+     the device of board "01" in bank "PC01" is accepted alone; both banks together make two chunk groups that claim
+     pad (25, 112) twice - pad_claims has a repetition - and the build fails with the duplicate-pad error under both
+     group orders *)
+Theorem C10_e2e_nonvacuous_pad_more :
+  (Chunk.chunk_decode pwb_devices Checked (snd e2x_pad_bank_data) = Ok e2x_chunk_data /\
+   pad_cal_e2e e2x_gain e2x_run_data 25 112 = DOk (1738%Z, (1, (5084909536333083, -52))%Z, 115) /\
+   try_from_banks_model e2x_fcal e2x_gain Checked e2x_run_data [e2x_pad_bank_data; e2x_trg_bank] (fun l => l) =
+     Ok e2x_pad_event_data) /\
+  (map fst e2x_two_banks = [e2x_name_pc00; e2x_name_pc00] /\
+   try_from_banks_model e2x_fcal e2x_gain Checked e2x_run (e2x_two_banks ++ [e2x_trg_bank]) (fun l => l) =
+     Ok e2x_pad_event /\
+   try_from_banks_model e2x_fcal e2x_gain Checked e2x_run (e2x_trg_bank :: rev e2x_two_banks) (fun l => l) =
+     Ok e2x_pad_event) /\
+  (try_from_banks_model e2x_fcal e2x_gain Checked e2x_run [e2x_pad_bank_other_dev; e2x_trg_bank] (fun l => l) =
+     Ok e2x_pad_event /\
+   pad_claims (env_e2e_m e2x_gain Checked e2x_run)
+              (decode_banks_m Checked [e2x_pad_bank; e2x_pad_bank_other_dev; e2x_trg_bank]) = [(25, 112); (25, 112)] /\
+   try_from_banks_model e2x_fcal e2x_gain Checked e2x_run [e2x_pad_bank; e2x_pad_bank_other_dev; e2x_trg_bank]
+     (fun l => l) = Err E_duppad /\
+   try_from_banks_model e2x_fcal e2x_gain Checked e2x_run [e2x_pad_bank; e2x_pad_bank_other_dev; e2x_trg_bank]
+     (@rev _) = Err E_duppad).
+Proof.
+  exact (conj e2x_pad_bank_accepted_data_run (conj e2x_two_chunk_banks_accepted e2x_pad_claimed_twice_rejected)).
+Qed.
+Print Assumptions C10_e2e_nonvacuous_pad_more.
+
+(* ---- the theorems' hypotheses instantiated on these values ---- *)
+(* what the names stand for: the bank lists, the run, the expected events; the wire and TRG banks are those of
+   e2e_ex_banks; the sample type and arithmetic are those of the examples above *)
+Example E2E_pad_examples_definitions :
+  e2x_run = 4294967295 /\ e2x_single = [e2x_pad_bank; e2x_trg_bank] /\
+  e2x_twice = [e2x_pad_bank; e2x_trg_bank; e2x_pad_bank] /\
+  e2x_wire_pad = [e2x_wire_bank; e2x_pad_bank; e2x_trg_bank; e2x_other_bank] /\
+  e2x_wire_bank = ([67; 48; 57; 50], e2e_ex_adc) /\ e2x_trg_bank = ([65; 84; 65; 84], e2e_ex_trg) /\
+  e2x_pad_event = {| ev_wires := []; ev_pads := [((25, 112), [(10, (1, 0)); (25, (1, 0))]%Z)]; ev_ts := 1234 |} /\
+  e2x_wire_pad_event = {| ev_wires := [(0, repeat (7, (1, 0))%Z 30)];
+                          ev_pads := [((25, 112), [(10, (1, 0)); (25, (1, 0))]%Z)]; ev_ts := 1234 |} /\
+  e2x_F = ex_F /\ e2x_fcal = ex_fcal' /\ e2x_gain = ex_gain.
+Proof. repeat split; reflexivity. Qed.
+Example E2E_pad_hypotheses_satisfiable :
+  Forall bytes (map snd e2x_single) /\ Forall bytes (map snd e2x_twice) /\ Forall bytes (map snd e2x_wire_pad) /\
+  is_order (fun l => l) /\ is_order (@rev _).
+Proof.
+  exact (conj e2x_single_bytes (conj e2x_twice_bytes (conj e2x_wire_pad_bytes (conj id_order_is_order rev_is_order)))).
+Qed.
+(* C10_e2e_build_sound applies to the accepted events: they meet the declarative specification over the banks as
+   decoded by the models *)
+Example E2E_nonvacuous_pad_spec :
+  event_spec e2x_fcal (env_e2e_m e2x_gain Checked e2x_run) (decode_banks_m Checked e2x_single) e2x_pad_event /\
+  event_spec e2x_fcal (env_e2e_m e2x_gain Checked e2x_run) (decode_banks_m Checked e2x_wire_pad) e2x_wire_pad_event.
+Proof.
+  split.
+  - exact (C10_e2e_build_sound e2x_F e2x_fcal e2x_gain Checked e2x_run e2x_single (fun l => l) e2x_pad_event
+             e2x_single_bytes id_order_is_order (proj1 e2x_pad_bank_accepted)).
+  - exact (C10_e2e_build_sound e2x_F e2x_fcal e2x_gain Checked e2x_run e2x_wire_pad (fun l => l) e2x_wire_pad_event
+             e2x_wire_pad_bytes id_order_is_order (proj1 e2x_wire_and_pad_accepted)).
+Qed.
+(* all hypotheses of C10_e2e_reject_duplicate_pad_bank hold of the rejected event, with l1 = [], l2 = [TRG bank],
+   l3 = [], n / d the name / data bytes of the pad bank, b = 0, c = e2x_chunk: the theorem applies to a bank whose
+   single copy is accepted (C10_e2e_nonvacuous_pad_bank_accepted) *)
+Example E2E_nonvacuous_duplicate_pad_bank_applies :
+  exists k, try_from_banks_model e2x_fcal e2x_gain Checked e2x_run e2x_twice (fun l => l) = Err k.
+Proof.
+  exact (C10_e2e_reject_duplicate_pad_bank e2x_F e2x_fcal e2x_gain Checked e2x_run e2x_twice (fun l => l)
+           [] [e2x_trg_bank] [] (fst e2x_pad_bank) (snd e2x_pad_bank) 0 e2x_chunk
+           e2x_twice_bytes id_order_is_order eq_refl
+           (proj1 e2x_pad_bank_well_formed) (proj1 (proj2 (proj2 e2x_pad_bank_well_formed)))).
+Qed.
+(* the hypotheses of the clauses "the chunks of a (board, chip) do not reassemble" and "a pad claimed twice" of
+   C10_e2e_rejections hold of the two rejected events *)
+Example E2E_nonvacuous_pad_rejection_clauses :
+  (In (0, 1) (gkeys (decode_banks_m Checked e2x_twice)) /\
+   reasm_e2e Checked (group (0, 1) (decode_banks_m Checked e2x_twice)) = DErr) /\
+  ~ NoDup (pad_claims (env_e2e_m e2x_gain Checked e2x_run)
+                      (decode_banks_m Checked [e2x_pad_bank; e2x_pad_bank_other_dev; e2x_trg_bank])).
+Proof.
+  destruct e2x_pad_bank_twice_rejected as (_ & _ & _ & _ & _ & K & R & _).
+  destruct e2x_pad_claimed_twice_rejected as (_ & C & _).
+  split; [split; [rewrite K; left; reflexivity | exact R]|].
+  rewrite C. intros H. inversion H as [|x l H1 H2]. apply H1. left. reflexivity.
+Qed.
